@@ -905,6 +905,11 @@ class Engine:
             return VSeq(T.fresh(name, RSeq), v.elem_cname, v.kind)
         if isinstance(v, VOpts):
             return VOpts(T.fresh(name, Ref))
+        if isinstance(v, (VList, VSet, VDict)):
+            # the name is re-bound somewhere in the loop: at the head of an arbitrary iteration it refers to whatever container the
+            # previous iteration bound it to (an existing object of unknown identity), not to the container it held before the loop
+            r_ = T.fresh(name, Ref)
+            return type(v)(r_, getattr(v, "elem_cname", None)) if not isinstance(v, VDict) else VDict(r_, v.key_cname)
         if isinstance(v, (VList, VSet, VDict, VCls, VCallback, VOpaque, VConst, VPyTuple, VOptTable, VStrSet, VMro)):
             return v       # identity of containers does not change; contents are heap
         raise Unsupported(f"havoc of local {name}: {type(v).__name__}")
